@@ -311,11 +311,24 @@ func (x *engRun) step(ws []string) (out string) {
 	case "put", "del", "batch", "tx":
 		before := x.immCount()
 		var err error
+		// the caller's buffers belong to the caller again as soon as the call has returned: they are overwritten at once (an
+		// engine that keeps a reference to them instead of a copy shows the scribble on a later read)
+		scribble := func(bs ...[]byte) {
+			for _, b := range bs {
+				for i := range b {
+					b[i] = 0xEE
+				}
+			}
+		}
 		switch ws[0] {
 		case "put":
-			err = x.e.Put(unhx(ws[1]), unhx(ws[2]))
+			k, v := unhx(ws[1]), unhx(ws[2])
+			err = x.e.Put(k, v)
+			scribble(k, v)
 		case "del":
-			err = x.e.Delete(unhx(ws[1]))
+			k := unhx(ws[1])
+			err = x.e.Delete(k)
+			scribble(k)
 		case "batch":
 			var es []*wal.Entry
 			for _, o := range parseEngOps(ws[2:]) {
@@ -326,6 +339,9 @@ func (x *engRun) step(ws []string) (out string) {
 				}
 			}
 			err = x.e.ApplyBatch(es)
+			for _, e := range es {
+				scribble(e.Key, e.Value)
+			}
 		case "tx":
 			tx, e2 := x.e.BeginTransaction(false)
 			if e2 != nil {
